@@ -14,7 +14,10 @@ RULE = ("history on ONE database instance: a random permutation of queries mixin
         "(value, unit) of its reported constant and evaluating the expression tree in the reference model (Fraction + SI normaliser) "
         "reproduces the tool's result. non-trivial = distinct query with >=1 fact phrase and >=1 operator")
 
-def gen_query(rng, V, plain_facts, unit_facts):
+TARGETS = ["m/s^2", "km/s^2", "N/kg", "m/s/s", "ft/s^2", "m/s", "km/h", "N", "J", "W", "kg", "g", "m", "km", "s", "yr", "K", "m^2", "m^3", "l", "Pa", "Hz",
+           "kg/m^3", "J/kg", "W/m^2", "m^3/kg*s^2", "N*m^2/kg^2", "C", "V", "mol", "1/s", "kg*m/s^2"]
+
+def gen_query(rng, V, plain_facts, unit_facts, short=()):
     """Returns (text, tree) where tree leaves are ('num', F) | ('fact', phrase) | ('q', si, dims)."""
     nf = rng.randint(1, 4)
     used = []
@@ -45,6 +48,21 @@ def gen_query(rng, V, plain_facts, unit_facts):
             text, tree = "%s %s %s" % (text, op, t2), ("bin", op, tree, tr2)
         else:
             text, tree = "%s %s (%s)" % (t2, op, text), ("bin", op, tr2, tree)
+    if short and rng.random() < 0.25:
+        # a one- or two-letter phrase (g, c, e, au ...), parenthesised so that it is a value and not a unit
+        w = rng.choice(short)
+        op = rng.choice("**/")
+        if rng.random() < 0.5:
+            text, tree = "(%s) %s (%s)" % (w, op, text), ("bin", op, ("fact", w), tree)
+        else:
+            text, tree = "(%s) %s (%s)" % (text, op, w), ("bin", op, tree, ("fact", w))
+        if rng.random() < 0.3:
+            text, tree = "(%s)" % w, ("fact", w)
+    if rng.random() < 0.3:
+        # a cast: to a spelling of one of the usual dimensions (commensurable or not - the trace specification, mode equality and
+        # history equality hold for failing queries too; a cast must not make the evaluator look anything up on its own: seed C18-c)
+        tgt = rng.choice(TARGETS) if rng.random() < 0.8 else G.text(V.rand_factors(rng, nmax=2), rng)
+        return "(%s) to %s" % (text, tgt), ("to", tree, tgt)
     r = rng.random()
     if r < 0.2:
         # plain-number sum of two population-like facts, rounded
@@ -62,7 +80,7 @@ def phrase_leaves(tree):
         return [tree[1]]
     if k in ("num", "q"):
         return []
-    if k == "round":
+    if k in ("round", "to"):
         return phrase_leaves(tree[1])
     return phrase_leaves(tree[2]) + phrase_leaves(tree[3])
 
@@ -82,6 +100,11 @@ def model(tree, consts, V):
     if k == "round":
         v, d = model(tree[1], consts, V)
         return exact.round_half_away(v), d
+    if k == "to":
+        v, d = model(tree[1], consts, V)       # a cast changes neither the SI value nor the dimension (the tool refuses it otherwise)
+        if d == R.ZERO_DIMS:
+            raise ValueError("a plain number adopts the unit it is cast to (C02): not judged here")
+        return v, d
     op = tree[1]
     a, da = model(tree[2], consts, V)
     b, db = model(tree[3], consts, V)
@@ -116,14 +139,34 @@ def shard(p):
         if len(plain) < 5:
             acc.inconc("too few plain-number facts (%d)" % len(plain))
             return acc
+        # one- and two-letter words that the database answers (g, c, e, au, ly ...)
+        import string
+        cands = list(string.ascii_letters) + [a + b for a in string.ascii_lowercase for b in string.ascii_lowercase if a + b != "to"]
+        creps = d.call_many([{"op": "query", "q": "(%s)" % w, "describe": True} for w in cands], timeout=600)
+        short = []
+        for w, rep in zip(cands, creps):
+            items = rep.get("items") or []
+            if len(items) == 1 and "ok" in items[0] and len(rep.get("descs") or []) == 1:
+                try:
+                    V.norm_item(items[0])
+                except Exception:
+                    continue
+                short.append(w)
+        acc.seen("short_phrases_answered", tuple(short))
         queries = []
         for _ in range(p["n"]):
-            queries.append(gen_query(rng, V, plain, unitf))
+            queries.append(gen_query(rng, V, plain, unitf, short))
         for g in ["zzqqxx", "qqq jjj", "population zzzz"]:
             queries.append((g, None))
+        # cast matrix: every short phrase (and a slice of the fact phrases) x every usual cast target, this shard's share of it
+        matrix = [(w, t) for w in short + phrases[:: max(1, len(phrases) // 60)] for t in TARGETS]
+        n_generated = len(queries)
+        for w, t in matrix[p["shard"] % NCPU::NCPU]:
+            queries.append(("(%s) to %s" % (w, t), ("to", ("fact", w), t)))
+        acc.count("cast_matrix_queries", len(queries) - n_generated)
         schedule = []
         for qi in range(len(queries)):
-            k = rng.randint(2, 5)
+            k = rng.randint(2, 5) if qi < n_generated else 2
             flag = rng.random() < 0.5
             for j in range(k):
                 schedule.append((qi, flag))
